@@ -23,7 +23,7 @@ length and the three networks no guard on the segwit_addr -> bech32_encode path 
 are the specified ones and the number of 5-bit groups emitted is ceil(8*len/5) -- derived from the length, never from the
 value. [EXC] totality: every dict lookup and sequence index on the path of is_segwit_addr / is_addr is discharged by a
 dominating membership / non-emptiness / for-all fact, and no explicit error other than the caught AssertionError escapes;
-is_base58check catches every exception.
+is_base58check catches every exception. [DECISION-TABLE] a predicate may answer before it decodes only where no valid address exists: with the input length bound to each length a valid address has, and with the input beginning bc1 / BC1 / tb1 / TB1 / bcrt1 / BCRT1, an accepting path must remain.
 """
 NOT_DECIDED = ("the 8->5 / 5->8 regroupings outside the enumerated lengths (encoder: programs of 2,3,5,20,32,33,40 bytes; decoder: 1..72 characters; "
                "within them both are compared bit by bit with BIP173); the polymod recurrence as a BCH code (only its step is compared); "
